@@ -1,8 +1,23 @@
 package mpb
 
-import "container/heap"
+import (
+	"container/heap"
+	"sync"
+)
 
-type heapManager chan heapRequest
+type heapManager struct {
+	req chan heapRequest
+	// pending counts detached pushes (see push), end waits for them
+	// before the request channel is closed.
+	pending *sync.WaitGroup
+}
+
+func newHeapManager(queueLen int) heapManager {
+	return heapManager{
+		req:     make(chan heapRequest, queueLen),
+		pending: new(sync.WaitGroup),
+	}
+}
 
 type heapCmd int
 
@@ -44,7 +59,7 @@ func (m heapManager) run() {
 	var len int
 	var sync bool
 
-	for req := range m {
+	for req := range m.req {
 		switch req.cmd {
 		case h_push:
 			data := req.data.(pushData)
@@ -114,43 +129,47 @@ func (m heapManager) run() {
 					ch <- []*Bar(bHeap)
 				}()
 			}
-			close(m)
+			close(m.req)
 		}
 	}
 }
 
 func (m heapManager) sync(drop <-chan struct{}) {
-	m <- heapRequest{cmd: h_sync, data: drop}
+	m.req <- heapRequest{cmd: h_sync, data: drop}
 }
 
 func (m heapManager) push(b *Bar, sync bool) {
 	data := pushData{b, sync}
 	req := heapRequest{cmd: h_push, data: data}
 	select {
-	case m <- req:
+	case m.req <- req:
 	default:
+		m.pending.Add(1)
 		go func() {
-			m <- req
+			m.req <- req
+			m.pending.Done()
 		}()
 	}
 }
 
 func (m heapManager) iter(drop <-chan struct{}, iter, iterPop chan<- *Bar) {
 	data := iterData{drop, iter, iterPop}
-	m <- heapRequest{cmd: h_iter, data: data}
+	m.req <- heapRequest{cmd: h_iter, data: data}
 }
 
 func (m heapManager) fix(b *Bar, priority int, lazy bool) {
 	data := fixData{b, priority, lazy}
-	m <- heapRequest{cmd: h_fix, data: data}
+	m.req <- heapRequest{cmd: h_fix, data: data}
 }
 
 func (m heapManager) state(ch chan<- bool) {
-	m <- heapRequest{cmd: h_state, data: ch}
+	m.req <- heapRequest{cmd: h_state, data: ch}
 }
 
 func (m heapManager) end(ch chan<- interface{}) {
-	m <- heapRequest{cmd: h_end, data: ch}
+	// a detached push must not find the request channel closed
+	m.pending.Wait()
+	m.req <- heapRequest{cmd: h_end, data: ch}
 }
 
 func syncWidth(matrix map[int][]chan int, drop <-chan struct{}) {
